@@ -17,6 +17,8 @@ def panicClass : Panic → String
     else if s == "user" then "user"
     else if s == "state:stabilise:status" then "status"
     else if s == "node:became_necessary:bind-not-necessary" then "bind-not-necessary"
+    else if s == "adjust_heights_heap:set_max_height_allowed:below-max-seen" then "below-max-seen"
+    else if s == "state:set_max_height_allowed:during-stabilisation" then "during-stabilisation"
     else if s.startsWith "model:" then "model-error:" ++ s
     else "other"
 
@@ -129,6 +131,11 @@ def stepAction (env : Env) (a : Action) (tokens : Array Nat) : M (String × Arra
     let c ← resolveOpnd [] c
     let dep ← expertAddDependency env fuelDefault n c cb
     pure (s!"ok d{dep}", tokens)
+  | .dropAll => do
+    -- every handle and the state are dropped; the model has nothing left to say
+    modify fun s => { s with alive := false }
+    pure ("ok", tokens)
+  | .expectPanic _ => pure ("ok", tokens)
   | .arm k => do
     modify fun s => { s with panicCountdown := some k }
     pure ("ok", tokens)
@@ -147,11 +154,13 @@ def traceAction (env : Env) (idx : Nat) (a : Action) (rs : RunState) : RunState 
     | .error p => ("panic " ++ panicClass p, rs.tokens)
   let evs := s1.log.reverse.map fun e => s!"{idx} ev {e.render}"
   let reads := joinWith " " ((List.range s1.observers.size).map fun o =>
-    if (s1.observers[o]?.map (·.clones)).getD 0 == 0 then s!"o{o}=gone"
+    if (s1.observers[o]?.map (·.clones)).getD 0 == 0 || !s1.alive then s!"o{o}=gone"
     else s!"o{o}={renderRead (s1.tryGetValue env o)}")
   let snaps := (List.range s1.nodes.size).map fun n => s!"{idx} snap {renderNode env s1 n}"
-  let lines := [s!"{idx} api {api}"] ++ evs ++ [s!"{idx} read {reads}"] ++ snaps
-    ++ [s!"{idx} heap {renderHeap s1}", s!"{idx} stats {renderStats s1}"]
+  let lines := if s1.alive then
+      [s!"{idx} api {api}"] ++ evs ++ [s!"{idx} read {reads}"] ++ snaps
+        ++ [s!"{idx} heap {renderHeap s1}", s!"{idx} stats {renderStats s1}"]
+    else [s!"{idx} api {api}"] ++ evs ++ [s!"{idx} read {reads}"]
   ({ s := s1, tokens := tokens }, lines)
 
 def runHistory (h : History) : List String :=
